@@ -7427,8 +7427,8 @@ let extract_code_block_start line =
      then None
      else let (lang, o) = split_at_brace rest in
           (match o with
-           | Some cfg -> Some ((n0, (trim_end lang)), cfg)
-           | None -> Some ((n0, lang), [])))
+           | Some cfg -> Some ((n0, (trim_end lang)), (trim_end cfg))
+           | None -> Some ((n0, (trim_end lang)), [])))
 
 (** val closes : nat -> text -> bool **)
 
@@ -7873,10 +7873,7 @@ let md_body_ok pe_ok n0 body =
 (** val lang_of : text -> text **)
 
 let lang_of lang =
-  let (a, o) = split_at_brace lang in
-  (match o with
-   | Some _ -> trim_end a
-   | None -> a)
+  let (a, _) = split_at_brace lang in trim_end a
 
 (** val lang_ok : text -> bool **)
 
